@@ -102,6 +102,23 @@ CLAIMED["C04"] = {
     "technique": "contracts on the generic CRTP layer instantiated per group; same-execution DAG identity against the documented compositions; polynomial normal form for the round trips; per-function instantiation units",
 }
 
+CLAIMED["C15"] = {
+    "text": "Per group: SLERP is the same computation as A.rplus(B.rminus(A)*t) (DAG identity, all groups); end points at t=0 for all methods and all groups, "
+            "at t=1 and left equivariance for SO2, SE2, Rn by normal form; a parameter outside [0,1] raises on every path and nothing inside is rejected (z3); "
+            "smoothing_phi: phi(0)=0, phi(1)=1, phi' = c t^m (1-t)^m, c>0 (exact); unsupported degrees raise for every size_t (CBMC contract on the extracted dispatch).",
+    "note": _REAL + "CUBIC end points are a recorded known finding. t=1 end points for quaternion groups: lemma from C01+C03. Auto-valid tracing assumptions are each proved by normal form.",
+    "technique": "contracts on interpolation.h instantiated per group; DAG identity; polynomial normal form; z3 on path conditions; CBMC code contract for the degree dispatch",
+    "engine": "E1+E3",
+}
+
+CLAIMED["C18"] = {
+    "text": "Proof over the reals that the tangent comparison IS the documented relation (absolute test against zero below eps, relative test otherwise) on every "
+            "path (z3 on path conditions), is symmetric and reflexive; the group comparison is the same computation as the tangent test of Y(-)X against zero; "
+            "X.rminus(X) is exactly zero for every valid X incl. the antipodal coefficient vector (normal form), so X.isApprox(X) and X==X hold.",
+    "note": _REAL + "Not decided: X==X at huge coordinates (rounding). rminus(X,X)=0 discharged for SO2, SE2, SO3, Rn (SE3 thorough).",
+    "technique": "contracts on LieGroupBase/TangentBase::isApprox; per-path VCs by symbolic-scalar execution; z3 (QF_NRA) on path conditions; polynomial normal form",
+}
+
 NOT_APPLICABLE = {
     "C14": "quantifies over thread schedules; contract verification of one sequential call cannot express or decide data-race freedom (no thread model in any installed deductive back end for this C++ code) - see DESIGN.md section 5",
     "C19": "the oracle is the compiler's accept/reject verdict over a matrix of client programs, not a pre/postcondition of any function - see DESIGN.md section 5",
